@@ -675,7 +675,7 @@ def oracle(sim: Sim, plan: dict) -> list[dict]:
         return V
     if sim.deadlock:
         for p in ("C05", "C06", "C07", "C14"):
-            v(f"{p}.deadlock", "deadlock", "run deadlocked: a component waited forever although the plan's dependencies are acyclic")
+            v(f"{p}.deadlock", "deadlock" if not (p == "C06" and _lost_key(plan) == "burst>50") else "burst>50", "run deadlocked: a component waited forever although the plan's dependencies are acyclic")
         return V
 
     tree = plan["tree"]
@@ -1018,6 +1018,13 @@ def oracle(sim: Sim, plan: dict) -> list[dict]:
                     v("C02.component_parent", "snapshot", f"Context() created in {d['phase']}() of {d['path']} does not see what the calling context holds: {d['diff']}")
                 if not d["inside"] or not d["restored"]:
                     v("C12.current", "component_phase", f"current_context() around a nested context in {d['path']}: {d}")
+    if _lost_key(plan) == "burst>50":
+        # plans with a burst of more than 50 decoys in one step exercise the overflow of a
+        # waiting component's 50-slot queue (known finding): lost, late and never-delivered
+        # wake-ups of such plans are keyed so that exactly this cause can be recognised
+        for x in V:
+            if x["rule"] in ("C06.lost_wakeup", "C06.late_wakeup", "C06.deadlock"):
+                x["key"] = "burst>50"
     return V
 
 
